@@ -133,6 +133,10 @@ func driveC11(c *h.Ctx) error {
 		"alone and combined with failures; (4) races: the next call started without waiting, at the instant the server closes the connection after replying, " +
 		"after an abandoned or failed call; (5) random compositions; (6) calls issued while Client.Close is parked inside the transport's Close (oracle only). Non-trivial: at least one failure, trigger, Close or negotiation; distinct by scenario text")
 	if c.Replay != nil {
+		if cs, _ := c.Replay["case"].(map[string]any); cs != nil && cs["leg"] == "negotiation-fault-then-unreachable" {
+			c11NegotiationFaultThenUnreachable(c)
+			return ccDrive(c, "C11", nil, "cases_C11.v", nil)
+		}
 		if cs, _ := c.Replay["case"].(map[string]any); cs != nil && cs["leg"] == "close-race" {
 			c11CloseRace(c)
 			return ccDrive(c, "C11", nil, "cases_C11.v", nil)
@@ -141,6 +145,9 @@ func driveC11(c *h.Ctx) error {
 			c11RecvWindow(c)
 			return ccDrive(c, "C11", nil, "cases_C11.v", nil)
 		}
+	}
+	if c.Replay == nil {
+		c11NegotiationFaultThenUnreachable(c)
 	}
 	cases, replay, err := ccReplayCases(c)
 	if err != nil {
